@@ -12,6 +12,8 @@
 #include "../num_traits/from_value.h"
 #include "../num_traits/set_width.h"
 #include "../num_traits/width.h"
+#include "../numbers/set_signedness.h"
+#include "../numbers/signedness.h"
 #include "definition.h"
 
 /// compositional numeric library
@@ -29,8 +31,12 @@ namespace cnl {
     struct from_value<
             elastic_integer<Digits, Narrowest>, elastic_integer<ValueDigits, ValueNarrowest>>
         : _impl::from_value_simple<
-                  elastic_integer<ValueDigits, Narrowest>,
-                  elastic_integer<ValueDigits, Narrowest>> {
+                  elastic_integer<
+                          ValueDigits,
+                          numbers::set_signedness_t<Narrowest, numbers::signedness_v<ValueNarrowest>>>,
+                  elastic_integer<
+                          ValueDigits,
+                          numbers::set_signedness_t<Narrowest, numbers::signedness_v<ValueNarrowest>>>> {
     };
 
     template<int Digits, class Narrowest, CNL_IMPL_CONSTANT_VALUE_TYPE Value>
